@@ -51,7 +51,11 @@ V("C04", "no_restore_f", "violation", (DAEINT, "            dae.f[:] = np.array(
 V("C04", "accept_loose_tol", "violation", (DAEINT, "if abs(mis) <= tds.config.tol:", "if abs(mis) <= 100 * tds.config.tol:"), rule="C04.accept")
 V("C04", "no_tf_clip", "violation", (TDS, "            self.h = max(config.tf - system.dae.t, 0)\n", "            self.h = max(self.h, 0)\n"), rule="C04.stepsize")
 V("C04", "fixt_growth_unclipped", "violation", (TDS, "                if config.fixt:\n                    self.deltat = min(config.tstep, self.deltat)\n", ""), rule="C04.stepsize")
-V("C04", "reject_no_rewind", "violation", (TDS, "                dae.t -= self.h\n                self.calc_h()", "                self.calc_h()"), rule="C04.restore")
+V("C04", "reject_no_rewind", "violation", (TDS, "                if clock_ahead:\n                    dae.t[...] = self._t_prev\n", ""), rule="C04.rollback")
+V("C04", "reject_rewind_unconditional", "violation", (TDS, "                if clock_ahead:\n                    dae.t[...] = self._t_prev\n", "                dae.t -= self.h\n"), rule="C04.rollback")
+V("C04", "reject_no_readvance", "violation", (TDS, "                if clock_ahead:\n                    self._advance_time()\n", ""), rule="C04.rollback")
+V("C04", "typestate_set_outside_helper", "violation", (TDS, "        self.initialized = True\n", "        self.initialized = True\n        self._t_prev = system.dae.t.copy()\n"), rule="C04.rollback")
+V("C04", "benign_reject_flag_inline", "silent", (TDS, "                clock_ahead = self._t_prev is not None\n                if clock_ahead:\n                    dae.t[...] = self._t_prev\n", "                clock_ahead = not (self._t_prev is None)\n                if self._t_prev is not None:\n                    dae.t[...] = self._t_prev\n"))
 V("C04", "scale_mismatch", "violation", (DAEINT, "tds.qg[dae.n:] = tds.config.g_scale * tds.h * dae.g", "tds.qg[dae.n:] = tds.config.g_scale * dae.g"), rule="C04.scale")
 V("C04", "benign_theta_rewrite", "silent", (DAEINT, "return Tf * (x - x0) - h * 0.5 * (f + f0)", "return Tf * (x - x0) - 0.5 * h * f - 0.5 * h * f0"))
 
@@ -368,3 +372,20 @@ _load_agent_corpus()
 V("C17", "criterion_operand_not_established", "violation", (TDS, "        if self.config.criteria:\n            system.connectivity(info=False)\n", ""), rule="C17.criteria")
 V("C17", "criterion_operand_before_initialized", "violation", (TDS, "        self.initialized = True\n\n        # record the rotor angles monitored by the stability criterion (generators in the\n        # largest island); later connectivity checks after switching events update them\n        if self.config.criteria:\n            system.connectivity(info=False)\n", "        if self.config.criteria:\n            system.connectivity(info=False)\n        self.initialized = True\n"), rule="C17.criteria")
 V("C17", "criterion_operand_only_with_check_conn", "violation", (TDS, "        if self.config.criteria:\n            system.connectivity(info=False)\n", "        if self.config.criteria and self.config.check_conn:\n            system.connectivity(info=False)\n"), rule="C17.criteria")
+V("C06", "custom_event_redispatches_all", "violation", (TDS, "            system.switch_action(models)\n", "            system.switch_action(system.exist.pflow_tds)\n"), rule="C06.once")
+V("C06", "custom_event_filter_wrong_key", "violation", (TDS, "                done = system.switch_dict[self._last_switch_t]\n                models = OrderedDict((name, mdl) for name, mdl in models.items() if name not in done)\n", "                models = OrderedDict((name, mdl) for name, mdl in models.items() if name not in system.models)\n"), rule="C06.once")
+V("C06", "schedule_accumulates_across_calls", "violation", (SYSTEM, "        self.switch_dict = OrderedDict()\n        for i, j in zip(out, names):", "        for i, j in zip(out, names):"), rule="C06.schedule")
+V("C06", "refresh_keeps_old_pointer", "violation", (TDS, "            self._switch_idx = 0\n            if system.n_switches > 0 and system.switch_times[0] == system.dae.t and self._last_switch_t == system.dae.t:\n                self._switch_idx = 1\n", ""), rule="C06.schedule")
+V("C06", "pointer_reset_without_rebuild", "violation", (TDS, "        # if not all events have been processed\n", "        if self.custom_event is True:\n            self._switch_idx = 0\n        # if not all events have been processed\n"), rule="C06.advance")
+V("C06", "benign_custom_event_dict_comp", "silent", (TDS, "                models = OrderedDict((name, mdl) for name, mdl in models.items() if name not in done)\n", "                models = {name: mdl for name, mdl in models.items() if name not in done}\n"))
+V("C19", "add_not_rolled_back", "violation", ("andes/core/model/modeldata.py", "            del self.uid[idx]\n            self.n -= 1\n            raise\n", "            raise\n"), rule="C19.registry")
+V("C19", "add_rollback_params_only_lists", "violation", ("andes/core/model/modeldata.py", "            for instance, size in added:\n                if isinstance(instance.v, list):\n                    del instance.v[size:]\n                else:\n                    instance.v = instance.v[:size]\n", "            pass\n"), rule="C19.registry")
+V("C19", "benign_add_validate_then_commit", "silent", ("andes/core/model/modeldata.py", "            del self.uid[idx]\n            self.n -= 1\n            raise\n", "            self.uid.pop(idx)\n            self.n = self.n - 1\n            raise\n"))
+V("C05", "reinit_not_cleared", "violation", (TDS, "        system.dae.clear_xy()\n", ""), rule="C05.reinit")
+V("C05", "reinit_clears_x_only", "violation", (TDS, "        system.dae.clear_xy()\n", "        system.dae.x[:] = 0\n"), rule="C05.reinit")
+V("C05", "benign_reinit_clear_inline", "silent", (TDS, "        system.dae.clear_xy()\n", "        system.dae.x[:] = 0.0\n        system.dae.y[:] = 0.0\n"))
+V("C20", "routine_writes_bool_into_enum_field", "violation", (TDS, "            config.fixt = 0\n", "            config.fixt = False\n"), rule="C20.alternatives")
+V("C20", "routine_writes_undeclared_value", "violation", (TDS, "            config.fixt = 0\n", "            config.fixt = 2\n"), rule="C20.alternatives")
+V("C13", "corrections_floats_only", "violation", ("andes/core/param.py", "        if isinstance(value, (int, float, np.integer, np.floating)) and not isinstance(value, (bool, np.bool_)):", "        if isinstance(value, float):"), rule="C13.numeric-type")
+V("C13", "benign_corrections_numbers_real", "silent", ("andes/core/param.py", "        if isinstance(value, (int, float, np.integer, np.floating)) and not isinstance(value, (bool, np.bool_)):", "        if isinstance(value, (float, int, np.floating, np.integer)) and not isinstance(value, (np.bool_, bool)):"))
+V("C17", "benign_criterion_operand_guard_order", "silent", (TDS, "        if self.config.criteria:\n            system.connectivity(info=False)\n", "        if self.config.criteria != 0:\n            system.connectivity(False)\n"))
